@@ -127,8 +127,10 @@ def rust_escape(s):
 def derive_regex(rng, name):
     r = rng.random()
     e = rust_escape(name)
-    if r < 0.2:
+    if r < 0.1:
         return e
+    if r < 0.2:
+        return rust_escape(name.swapcase())         # the regular-expression operators are case-sensitive unless the pattern says (?i)
     if r < 0.35:
         return "^" + e + "$"
     if r < 0.5:
@@ -262,8 +264,18 @@ def run(ctx):
             ctx.violation("correspondence-mismatch", "converter output differs from model.Glob.convert", input={"pattern": p},
                           observed=conv[p], model=[cg, cl], concrete=False, correspondence="harness convert_*_to_pattern vs model.Glob")
         pos, neg = OPS[kind]
+        rxspec = None
+        if kind == "rx":
+            # the textbook reading of the pattern by an independent engine (Python's re on the shapes the generator produces:
+            # escaped literals, ^ $ . * + | [..] (?i); `$` = end of text only)
+            try:
+                pp = p[:-1] + "\\Z" if p.endswith("$") and not p.endswith("\\$") else p
+                rxc = re.compile(pp)
+                rxspec = [1 if rxc.search(n) else 0 for n in names]
+            except re.error:
+                rxspec = None
         checks = [(pos, neg, {"glob": eqv, "like": likev, "rx": rxv, "exact": None}[kind],
-                   {"glob": gspec, "like": lspec, "rx": None, "exact": [1 if n == p else 0 for n in names]}[kind], kind)]
+                   {"glob": gspec, "like": lspec, "rx": rxspec, "exact": [1 if n == p else 0 for n in names]}[kind], kind)]
         if kind == "exact":
             checks.append(("=", "!=", eqv, gspec, "glob"))
         for pos, neg, faithful, spec, k2 in checks:
@@ -357,7 +369,7 @@ def run(ctx):
             st["hist"]["combo_ok"] += 1
     ctx.coverage.update(
         evaluations=st["evaluations"], distinct_nontrivial=len(st["distinct"]), traces_validated_against_impl=st["agreed"],
-        rule="(plus: one pattern text read by two different operators in one query, joined by and/or, must give the intersection/union of the single-operator results) %d file names over letters of both cases, digits, space and the regex metacharacters %r; patterns derived from the names (substring -> wildcard, one char -> single wildcard, case flips, edits, inserted metacharacters, a wildcard between a prefix and a suffix that overlap / meet / leave a gap in the name) for glob (= / !=), LIKE (like / notlike), regex (=~ / !=~) and exact (=== / !==, also on patterns with wildcard characters, which they read literally); the real binary's rows are compared with (a) the textbook verdict (glob_spec / like_spec / equality evaluated in Coq) and (b) the faithful model (generated tables + regex engine); negatives must be exact complements. non-trivial = a pattern selecting a proper non-empty subset" % (len(names), META),
+        rule="(plus: one pattern text read by two different operators in one query, joined by and/or, must give the intersection/union of the single-operator results) %d file names over letters of both cases, digits, space and the regex metacharacters %r; patterns derived from the names (substring -> wildcard, one char -> single wildcard, case flips, edits, inserted metacharacters, a wildcard between a prefix and a suffix that overlap / meet / leave a gap in the name) for glob (= / !=), LIKE (like / notlike), regex (=~ / !=~) and exact (=== / !==, also on patterns with wildcard characters, which they read literally); the real binary's rows are compared with (a) the textbook verdict (glob_spec / like_spec / equality evaluated in Coq; for =~ / !=~ an independent regular-expression engine on the generated pattern shapes, incl. case-swapped literals) and (b) the faithful model (generated tables + regex engine); negatives must be exact complements. non-trivial = a pattern selecting a proper non-empty subset" % (len(names), META),
         samples=st["samples"], distribution=dict(st["hist"]))
     return ctx.finish(trusted=[
         "regex crate semantics are modelled by lib/Regex.v + lib/RegexParse.v on an ASCII subset ((?i) = ASCII case folding; Unicode simple case folding of the real crate is outside the model and outside the generated alphabet)",
